@@ -1571,11 +1571,20 @@ class Interp:
         if n in self.record_types():
             names, dflts, _cls = self.record_types()[n]
             fields = {}
+            spread = None
             for i, a in enumerate(args):
-                if i < len(names):
+                if i < len(e.args) and isinstance(e.args[i], ast.Starred):
+                    # R(*values): the remaining fields are elements of what is unpacked
+                    el_ = self.elem_of(a) if a.k in ("list", "dict") else a
+                    spread = raw(deep_deps(a) | deep_deps(el_), deg=el_.deg if el_.k in ("E", "raw") else {})
+                    continue
+                if i < len(names) and spread is None:
                     fields[names[i]] = a
             for k_, v_ in kw.items():
                 fields[k_] = v_
+            if spread is not None:
+                for nm in names:
+                    fields.setdefault(nm, spread)
             for nm in names:
                 if nm not in fields:
                     fields[nm] = self.ev(dflts[nm], {}, cx) if nm in dflts else V("none")
